@@ -58,15 +58,16 @@ impl<'a, F: PrimeCharacteristicRing + Eq> ExecutionContext<'a, F> {
                 .ok_or(CircuitError::WitnessNotSet { witness_id: widx })
         }
 
+        // The index is derived from a `WitnessId` allocated against this `witness` vector at
+        // compile time, so the bounds check is elided in optimized builds. Whether the slot has
+        // been *set* depends on the inputs the caller provided and must be checked in every
+        // profile: reading an unset slot is an input error, not an invariant violation.
         #[cfg(not(debug_assertions))]
-        unsafe {
-            Ok(self
-                .witness
-                .get_unchecked(idx)
-                .as_ref()
-                .unwrap_unchecked()
-                .dup())
-        }
+        // SAFETY: see above; `idx < self.witness.len()`.
+        unsafe { self.witness.get_unchecked(idx) }
+            .as_ref()
+            .map(p3_field::Dup::dup)
+            .ok_or(CircuitError::WitnessNotSet { witness_id: widx })
     }
 
     /// Set witness value at the given index.
